@@ -7,8 +7,8 @@ Defined on the syntax tree, never mentioning a program counter.  Two-continuatio
 tries to match `e` starting from data `d`; on each way `e` can match — in priority order: earlier
 alternative first, greedy loops longest first, `fewest` loops shortest first — it calls the success
 continuation `ks` with the data after the match and a failure continuation that resumes with the
-next way; when no way is left it calls `fk`.  (`Vore/Lemmas/Outs.lean` relates this to the
-list-of-successes reading.)
+next way; when no way is left it calls `fk`.  `Vore/Spec/Outs.lean` is the list-of-successes reading and
+`Vore/Lemmas/Outs.lean` proves the two equal (`m … ks fk = firstK (outs …) ks fk`).
 
 Loop rule (for unnamed loops, the property's quantifier): the first `min` copies are mandatory and
 carry no consumption requirement; an *optional* iteration that consumes nothing is rejected, which
